@@ -55,6 +55,22 @@ def zonedToString (ns : Int) (offMinutes : Int) (showOffset : Bool) (tzShow : Op
       | some crit => ['['] ++ (if crit then ['!'] else []) ++ id ++ [']']) ++
     Fmt.calendar cal calShow)
 
+/-- `ZonedDateTime::to_ixdtf_string` for any zone: the offset in force at the rounded instant is rounded half-expand
+    to whole minutes for display; `id` is the zone's identifier. -/
+def zonedToStringTz (ns : Int) (tz : TZ) (id : List Char) (showOffset : Bool) (tzShow : Option Bool) (p : Precision)
+    (s : Option TUnit) (m : Option RMode) (cal : String) (calShow : Fmt.ShowCal) : Out (List Char) := do
+  let r ← toStringResolve p s m
+  let rounded ← roundInstant ns r.rounding
+  let rounded ← instantTryNew rounded
+  let off := tz.offsetNanosFor rounded
+  let dt ← IsoDateTime.fromEpochNanos rounded off
+  pure (Fmt.date dt.date ++ ['T'] ++ Fmt.time dt.time r.precision ++
+    (if showOffset then Fmt.offsetMinutes (Fmt.offsetNsToMinutes off) else []) ++
+    (match tzShow with
+      | none => []
+      | some crit => ['['] ++ (if crit then ['!'] else []) ++ id ++ [']']) ++
+    Fmt.calendar cal calShow)
+
 /-- `Duration::as_temporal_string(options)` -/
 def durationToString (d : Dur) (p : Precision) (s : Option TUnit) (m : Option RMode) : Out (List Char) :=
   if s = some .hour ∨ s = some .minute then .err .range else do
